@@ -44,6 +44,8 @@ def main():
     if recheck:
         out = dest
         res = json.load(open(os.path.join(dest, "meta.json")))
+        # results of checks that are not re-run now are kept (they date from the last full run)
+        old_checks = res.get("checks", {})
         res["checks"] = {}
         meta = res.get("author", {})
     env = dict(os.environ, CARGO_NET_OFFLINE="true", CARGO_TARGET_DIR=os.environ.get("SEED_SUITE_TARGET", "/tmp/seedchk/suite-target"))
@@ -104,6 +106,10 @@ def main():
                     pass
         res["checks"][p] = {"exit": rc, "violations": sigs[:6], "wall_s": round(time.time() - t0, 1)}
         print("[seedtest] %s vs check %s (%s): exit %s %s" % (name, p, tier, rc, ("| " + sigs[0][:160]) if sigs else ""), flush=True)
+    if recheck:
+        merged = dict(old_checks)
+        merged.update(res["checks"])
+        res["checks"] = merged
     res["caught_by_own_check"] = res["checks"][prop]["exit"] == 1
     res["caught_by"] = [p for p, v in res["checks"].items() if v["exit"] == 1]
     # --- 3. file it
